@@ -19,7 +19,8 @@ import time
 import dv
 
 AS_IMPL = ["HardStateSavedOnlyOnDrop", "Prev0ResetsFollowerLog", "GappedAppendRequest", "VoteResetOnAnyStepDown",
-           "EmptyAEAckReportsWholeLog", "FollowerCommitUsesWholeLog"]
+           "EmptyAEAckReportsWholeLog", "FollowerCommitUsesWholeLog", "SingleNodeFromInitialConfig",
+           "BatchPromoteAnySize", "MembershipNotReplayedOnRestart"]
 
 # focused model-checking configurations (constants of DEngine.tla) ------------------------------
 MC = {
@@ -35,6 +36,16 @@ MC = {
                    Faults=["Crash", "Drop", "Dup", "Client", "Heartbeat"], MaxCrash=1, MaxDrop=1),
 }
 
+MC["member-q"] = dict(Node="{1,2,3}", MaxTerm=3, MaxLog=3, MaxMsgs=2, Cap=100,
+                      Faults=["Member", "Drop", "Heartbeat", "Crash"], MaxCrash=1, MaxDrop=1, MaxCfg=2,
+                      InitView="<- IV_expand")
+MC["member-t"] = dict(Node="{1,2,3}", MaxTerm=3, MaxLog=4, MaxMsgs=3, Cap=100,
+                      Faults=["Member", "Drop", "Heartbeat", "Crash"], MaxCrash=1, MaxDrop=1, MaxCfg=3,
+                      InitView="<- IV_expand")
+MC["member4-t"] = dict(Node="{1,2,3,4}", MaxTerm=3, MaxLog=3, MaxMsgs=2, Cap=100,
+                       Faults=["Member", "Drop", "Heartbeat"], MaxCrash=0, MaxDrop=1, MaxCfg=2,
+                       InitView="<- IV_plus1")
+
 INV = {
     "C01": ["C01_ElectionSafety"],
     "C02": ["C02_VoteOnce", "C02_TermMonotone"],
@@ -43,6 +54,10 @@ INV = {
     "C07": ["C07_FollowerCommitMatches"],
     "C08": ["C08_GapFree", "C08_ContiguousAE"],
     "C09": ["C09_CommitRule"],
+    "C03": ["C03_SoleVoterShortcut", "C01_ElectionSafety"],
+    "C26": ["C26_QuorumsIntersect", "C01_ElectionSafety", "C09_CommitRule"],
+    "C27": ["C27_LearnersPassive", "C09_CommitRule"],
+    "C28": ["C28_ViewAfterRestart"],
 }
 
 # per property: MC configs per tier, invariants, what makes a replayed behaviour non-trivial
@@ -83,6 +98,25 @@ MANIFEST_INFO = {p: dict(technique="TLA+/TLC model checking of DEngine.tla + tra
                          category="model_checking", text=w + ": " + _TEXT, note=_NOTE, ref="DESIGN.md sections 2-3, 9")
                  for p, w in _WHAT.items()}
 
+H_EXPAND = {"initial": {"1": [[1, "F", "A"]], "2": [[1, "F", "A"], [2, "Ln", "P"]], "3": [[1, "F", "A"], [3, "Ln", "P"]]},
+            "cap": 100}
+H_PLUS1 = {"initial": {"1": [[1, "F", "A"], [2, "F", "A"], [3, "F", "A"]], "2": [[1, "F", "A"], [2, "F", "A"], [3, "F", "A"]],
+                       "3": [[1, "F", "A"], [2, "F", "A"], [3, "F", "A"]],
+                       "4": [[1, "F", "A"], [2, "F", "A"], [3, "F", "A"], [4, "Ln", "P"]]}, "cap": 100}
+_MEMBER = dict(sim=dict(Node="{1,2,3}", MaxTerm=5, MaxLog=7, MaxMsgs=8, Cap=100,
+                        Faults=["Crash", "Stop", "Drop", "Client", "Heartbeat", "Member"], MaxCrash=2, MaxDrop=2,
+                        MaxCfg=4, InitView="<- IV_expand"),
+               hcfg=H_EXPAND, rnd_cfgs=[H_EXPAND, H_PLUS1], profile="member")
+for _p, _mech in (("C03", ["StartRound"]), ("C26", ["Join"]), ("C27", ["Join"]), ("C28", ["Restart"])):
+    PROPS[_p] = dict(mc={"quick": ["member-q"], "thorough": ["member-t", "member4-t"]}, mech=_mech, min_mech=1, **_MEMBER)
+_WHAT.update({"C03": "a node skips vote collection only when it is the only voter",
+              "C26": "membership changes never allow two disjoint quorums",
+              "C27": "learners never vote, never start elections, never count toward quorums until promoted",
+              "C28": "membership survives restart"})
+MANIFEST_INFO = {p: dict(technique="TLA+/TLC model checking of DEngine.tla + trace validation of real-node executions (DETrace.tla)",
+                         category="model_checking", text=w + ": " + _TEXT, note=_NOTE, ref="DESIGN.md sections 2-3, 9")
+                 for p, w in _WHAT.items()}
+
 TIER = {
     "quick": dict(sim_num=60, sim_depth=45, rnd_runs=80, rnd_depth=60, workers=8, mc_timeout=900),
     "thorough": dict(sim_num=1500, sim_depth=60, rnd_runs=1500, rnd_depth=80, workers=16, mc_timeout=3000),
@@ -96,10 +130,12 @@ def mc_cfg(wd, name, consts, dev, invariants, hist=False, emit=0):
     constants = {k: v for k, v in c.items()}
     constants["Dev"] = dv.tla_set(dev)
     constants["Faults"] = dv.tla_set(faults)
+    constants.setdefault("InitView", "<- IV_all")
+    constants.setdefault("MaxCfg", 0)
     constants["HistOn"] = "TRUE" if hist else "FALSE"
     constants["EmitDepth"] = emit
     dv.write_cfg(cfg, constants=constants, invariants=invariants, constraint="Bound",
-                 view=None if hist else "view")
+                 view=None if hist else "stateView")
     return cfg
 
 
@@ -117,14 +153,17 @@ def uniquify(sched, tag):
     return out
 
 
-def run_harness(wd, schedules, rnd_runs, rnd_depth, seed_, cfg):
+def run_harness(wd, schedules, rnd_runs, rnd_depth, seed_, cfg, rnd_cfgs=None, profile="default", witnesses=True):
     """Replay TLC schedules and run random schedules; returns trace paths."""
     binp = dv.harness_bin("dv-cluster")
     traces = []
     scratch = os.path.join(wd, "snap")
-    if schedules:
+    wits = load_witnesses() if witnesses else []
+    if schedules or wits:
         sp = os.path.join(wd, "schedules.ndjson")
         with open(sp, "w") as f:
+            for w in wits:
+                f.write(json.dumps(w) + "\n")
             for i, s in enumerate(schedules):
                 f.write(json.dumps({"id": "tlc-%d" % (i + 1), "cfg": cfg, "steps": s}) + "\n")
         tp = os.path.join(wd, "trace-tlc.ndjson")
@@ -132,12 +171,27 @@ def run_harness(wd, schedules, rnd_runs, rnd_depth, seed_, cfg):
         traces.append(tp)
     if rnd_runs:
         # half of the random runs with the configured per-request cap, half with the default (100)
-        for tag, c, sd in (("a", cfg, seed_), ("b", dict(cfg, cap=100), seed_ + 7919)):
-            tp = os.path.join(wd, "trace-rnd-%s.ndjson" % tag)
-            dv.run([binp, "random", "--runs", str(max(1, rnd_runs // 2)), "--depth", str(rnd_depth),
-                    "--seed", str(sd), "--cfg", json.dumps(c), "--out", tp, "--scratch", scratch], timeout=3000)
+        variants = rnd_cfgs or [cfg, dict(cfg, cap=100)]
+        for k, c in enumerate(variants):
+            tp = os.path.join(wd, "trace-rnd-%d.ndjson" % k)
+            dv.run([binp, "random", "--runs", str(max(1, rnd_runs // len(variants))), "--depth", str(rnd_depth),
+                    "--seed", str(seed_ + 7919 * k), "--cfg", json.dumps(c), "--profile", profile,
+                    "--out", tp, "--scratch", scratch], timeout=3000)
             traces.append(tp)
     return traces
+
+
+def load_witnesses():
+    """Hand-written / TLC-counterexample schedules kept as regression witnesses (known findings and
+    negative tests); replayed by every cluster check."""
+    d = os.path.join(dv.ROOT, "witness", "cluster")
+    out = []
+    if os.path.isdir(d):
+        for fn in sorted(os.listdir(d)):
+            if fn.endswith(".json"):
+                with open(os.path.join(d, fn)) as f:
+                    out.append(json.load(f))
+    return out
 
 
 def trace_runs(path):
@@ -147,7 +201,7 @@ def trace_runs(path):
         for line in f:
             r = json.loads(line)
             runs.setdefault(r["id"], []).append({"a": r["a"], "applied": r["applied"], "step": r["step"],
-                                                 "cfg": r.get("cfg")})
+                                                 "cfg": r.get("cfgIn")})
     return runs
 
 
@@ -173,15 +227,16 @@ def check(prop, tier):
         transitions += st["generated"]
 
     # 2. behaviours of the as-implemented model -> schedules
-    simc = dict(Node="{1,2,3}", MaxTerm=5, MaxLog=6, MaxMsgs=8, Cap=2,
-                Faults=["Crash", "Stop", "Drop", "Dup", "Client", "Heartbeat"], MaxCrash=2, MaxDrop=3)
+    simc = spec.get("sim") or dict(Node="{1,2,3}", MaxTerm=5, MaxLog=6, MaxMsgs=8, Cap=2,
+                                   Faults=["Crash", "Stop", "Drop", "Dup", "Client", "Heartbeat"], MaxCrash=2, MaxDrop=3)
     cfg = mc_cfg(wd, "sim", simc, AS_IMPL, ["Emit"], hist=True, emit=T["sim_depth"])
     scheds, sim_secs = dv.tlc_simulate("MC_core", cfg, wd, T["sim_num"], T["sim_depth"] + 1, dv.seed())
     scheds = [uniquify(s, "t%d" % i) for i, s in enumerate(scheds)]
 
     # 3. real code
-    hcfg = {"n": 3, "cap": 2}
-    traces = run_harness(wd, scheds, T["rnd_runs"], T["rnd_depth"], dv.seed(), hcfg)
+    hcfg = spec.get("hcfg") or {"n": 3, "cap": 2}
+    traces = run_harness(wd, scheds, T["rnd_runs"], T["rnd_depth"], dv.seed(), hcfg,
+                         rnd_cfgs=spec.get("rnd_cfgs"), profile=spec.get("profile", "default"))
 
     # 4. judge
     viol, div = [], []
@@ -208,7 +263,8 @@ def check(prop, tier):
             seen.add(v["id"])
             recs = allruns.get(v["id"], [])
             steps_ = [r["a"] for r in recs if r["step"] > 0 and r["step"] <= v["step"]]
-            replay_paths.append(dv.save_replay(prop, {"engine": "cluster", "property": prop, "cfg": hcfg,
+            rcfg = (recs[0].get("cfg") if recs else None) or hcfg
+            replay_paths.append(dv.save_replay(prop, {"engine": "cluster", "property": prop, "cfg": rcfg,
                                                       "steps": steps_, "violation": v}))
             if len(replay_paths) >= 5:
                 break
@@ -263,7 +319,7 @@ def replay(prop, path):
         payload = json.load(f)
     wd = dv.workdir("replay-" + prop)
     dv.build_harness("dv-cluster")
-    traces = run_harness(wd, [payload["steps"]], 0, 0, dv.seed(), payload.get("cfg", {"n": 3}))
+    traces = run_harness(wd, [payload["steps"]], 0, 0, dv.seed(), payload.get("cfg", {"n": 3}), witnesses=False)
     res = dv.tlc_trace("DETrace", traces[0], os.path.join(wd, "result.json"), wd)
     known_hits, new = dv.classify(prop, res["viol"])
     for v in res["viol"]:
